@@ -12,7 +12,7 @@ LEVEL = "exploration"
 RULE = ("seeded random integer regression problems (families dense / large column means / near-collinear / +-1 / "
         "sparse with zero rows; n<=12 (thorough: <=24), p<=4 (thorough: <=6); targets random, linear+noise, exactly "
         "linear, large mean; exact power-of-two column and target rescaling 2^-7..2^10; f64 and f32), each fitted with "
-        "both solvers (one f64 problem in eight also through the ndarray bindings with column-major X and negatively strided y, one in eight through the api traits SupervisedEstimator::fit / Predictor::predict; size ladder "
+        "both solvers, the parameter object built by the struct literal or by one of the 3! orders of the with_* builder calls (rotating) (one f64 problem in eight also through the ndarray bindings with column-major X and negatively strided y, one in eight through the api traits SupervisedEstimator::fit / Predictor::predict; size ladder "
         "n in {63,64,65,255,256,257,1023,1024,1025} on +-1 data) (OLS: QR, SVD; ridge: Cholesky, SVD; alpha in 2^-10..100; normalisation on/off) and judged by "
         "TLC. An event is non-trivial when p >= 2 and the fitted residual is not identically zero (some prediction "
         "differs from its target by more than two fixed-point units); distinct = distinct (X, y, alpha, normalize, prec)")
@@ -34,6 +34,9 @@ def key_of(e, clause):
         k += " normalize=%s" % e["normalize"]
     if any(e.get("cexp", [])) or e.get("yexp", 0):
         k += " rescaled"
+    for f in e["fits"]:
+        if clause.endswith("_" + f["solver"]) and f.get("built", "literal") != "literal":
+            k += " [parameters built by with_* calls in the order %s]" % f["built"]
     return k
 
 
